@@ -1,5 +1,9 @@
 import PV.Proofs.Pickle
 import PV.Proofs.PickleDigest
+import PV.Proofs.PersistentHashInj
+import PV.Proofs.SyntaxBEq
+import PV.Generated.Traversal
+import PV.Generated.PersistentHash
 /-
   C17 — pickles and persistent keys are stable across processes: property theorems.
 
@@ -20,6 +24,15 @@ import PV.Proofs.PickleDigest
                      copy), keyword names duplicate-free (always true of a dict);
     `l.coherent P`   the locally built object may itself have been hashed already — in ITS process.
   No hypothesis relates the producer's hash parameters to the consumer's.
+
+  Persistent-hash digest (sections 6–8): `digest` (PV/Model/Pickle.lean) is the list of byte strings
+  `PersistentHashWalkMapper` feeds to its hash object.  Section 7 proves it equal, for all
+  expressions, to the interpreter `c17DigestT` of the class body re-read from the source on every
+  run (lean/PV/Generated/PersistentHash.lean) on top of the regenerated `WalkMapper` rows.
+  Section 8 states what the feed determines: hypotheses `c17Sep ar a` (every variadic node has the
+  number of children the rank discipline `ar` gives its class; variable names read as names,
+  float reprs as floats — PV/Model/PersistentHashSep.lean) and, for the concatenated bytes, a
+  self-delimiting piece encoding; conclusion up to the never-fed fields (`c17Erase`).
 -/
 namespace PV.C17
 open PV PV.Pickle
@@ -352,5 +365,299 @@ theorem digest_cross_process (P₁ P₂ : HashParams) (o₁ o₂ : Bool) (a b : 
     (hb : b.wf = true) (heq : a.pyEq b = true) (hs : sameShape a b = true) :
     digestIn P₁ o₁ a = digestIn P₂ o₂ b :=
   digest_structural_partial a b ha hb heq hs
+
+/-! ### 7. The digest model IS the current source (T-gen)
+
+`lean/PV/Generated/PersistentHash.lean` is rewritten on every run by extract/persistent_hash.py
+from the class body of `PersistentHashWalkMapper` (what `visit` feeds and returns, every `map_*`
+override: which pieces go to `self.key_hash.update`, by `repr` or by value, in which order, between
+which recursive calls) and `lean/PV/Generated/Traversal.lean` by extract/traversal.py from
+`WalkMapper`.  `c17DigestT` (PV/Model/PersistentHashTable.lean) interprets the two tables. -/
+
+open PV.Generated in
+/-- **Handler shapes of the current source.**  For every node the function that runs — an override
+of `PersistentHashWalkMapper` if the class body has one for the handler the node is dispatched to
+(class MRO against the `map_*` names, `Mapper` stubs followed), otherwise the inherited `WalkMapper`
+handler — is the one `digest` was written from: `map_constant` feeds `repr(expr)` (after the numpy
+normalisation) and does not call `visit`; `map_variable` feeds `expr.name` by value and does not
+call `visit`; `map_comparison` feeds `repr(expr.operator)` between its operands under
+`if self.visit(expr):`; everything else is `WalkMapper`'s row. -/
+theorem digest_resolve_current (e : Expr) :
+    c17Resolve c04Classes c04WalkTable c17HashTable e = c17HandBody e := by
+  cases e with
+  | const k => cases k <;> rfl
+  | nary o cs => cases o <;> rfl
+  | bin o a b => cases o <;> rfl
+  | un o a => cases o <;> rfl
+  | _ => rfl
+
+open PV.Generated in
+/-- `visit` feeds `type(expr).__name__` and returns `True`; `post_visit` feeds nothing -/
+theorem hash_table_std_current : c17HashTable.Std := ⟨rfl, rfl, rfl⟩
+
+open PV.Generated in
+/-- the rest of the class body: `__init__` stores the hash object as `self.key_hash`; the only
+base is `WalkMapper`; `map_constant` normalises numpy scalars before `repr`; every override
+replaces a handler `WalkMapper` has; `Expression.update_persistent_hash` is not defined (pytools'
+`KeyBuilder` keys expression dataclasses itself — this mapper runs only where it is called) -/
+theorem hash_table_rows_current :
+    c17HashTable.storesKeyHash = true ∧ c17HashTable.base = "WalkMapper" ∧
+      c17HashTable.exprUpdate = .absent ∧
+      (c17FindOverride c17HashTable "map_constant").map (·.numpyItem) = some true ∧
+      c17HashTable.overrides.all (fun h => (c04WalkTable.map (·.name)).contains h.name) = true := by
+  decide
+
+open PV.Generated in
+/-- **`digest` is one table-driven handler call per node of the current source**, recursing
+through `digest`. -/
+theorem digest_table_step_current (e : Expr) :
+    digest e = c17DigestStep c04Classes c04WalkTable c17HashTable digest e := by
+  rw [c17DigestStep, digest_resolve_current]
+  exact digest_eq_stepB hash_table_std_current e
+
+open PV.Generated in
+/-- … and the only such function -/
+theorem digest_unique_current (f : Expr → Except DepErr (List String))
+    (hf : ∀ e, f e = c17DigestStep c04Classes c04WalkTable c17HashTable f e) :
+    ∀ e, f e = digest e :=
+  c17Digest_unique c17HashTable (fun e => c17Resolve c04Classes c04WalkTable c17HashTable e) f
+    digest hf digest_table_step_current
+
+open PV.Generated in
+/-- **digest_eq_table_current.**  For ALL expressions the hand-written `digest` is the
+table-driven digest `c17DigestT` of the tables regenerated from the source on this run: the byte
+strings prescribed by the regenerated rows of `PersistentHashWalkMapper`, in the traversal order of
+the regenerated rows of `WalkMapper`.  Every theorem about `digest` in this file is therefore a
+theorem about what the current source says. -/
+theorem digest_eq_table_current (e : Expr) :
+    digest e = c17DigestT c04Classes c04WalkTable c17HashTable e :=
+  (c17DigestFuel_eq c04Classes c04WalkTable c17HashTable digest digest_table_step_current
+    e.size e (Nat.le_refl _)).symm
+
+open PV.Generated in
+/-- non-vacuity: the table interpreter run on the regenerated tables -/
+example :
+    (c17DigestT c04Classes c04WalkTable c17HashTable
+      (.cmp .lt (.var "x") (.bin .lshift (.const (.int 1)) (.var "n")))).toOption
+      = some ["Comparison", "x", "'<'", "LeftShift", "n", "1"] := by decide
+
+open PV.Generated in
+/-- `digest_structural_partial` about the table-driven digest of the current source -/
+theorem digest_structural_table_partial (a b : Expr) (ha : a.wf = true) (hb : b.wf = true)
+    (heq : a.pyEq b = true) (hs : sameShape a b = true) :
+    c17DigestT c04Classes c04WalkTable c17HashTable a =
+      c17DigestT c04Classes c04WalkTable c17HashTable b := by
+  rw [← digest_eq_table_current, ← digest_eq_table_current]
+  exact digest_structural_partial a b ha hb heq hs
+
+/-- a class body that no longer feeds the variable name -/
+def noNameTable : C17Table :=
+  { PV.Generated.c17HashTable with
+    overrides := [c17CmpRow, c17ConstRow, ⟨"map_variable", false, false, []⟩] }
+
+/-- a class body that feeds `repr(expr.name)` instead of the name -/
+def reprNameTable : C17Table :=
+  { PV.Generated.c17HashTable with
+    overrides := [c17CmpRow, c17ConstRow,
+      ⟨"map_variable", false, false, [.feed (.reprField "name")]⟩] }
+
+/-- a class body whose `map_comparison` no longer feeds the operator -/
+def noOperatorTable : C17Table :=
+  { PV.Generated.c17HashTable with
+    overrides := [⟨"map_comparison", true, false,
+        [.recur ⟨"left", .one, false⟩, .recur ⟨"right", .one, false⟩]⟩, c17ConstRow, c17VarRow] }
+
+open PV.Generated in
+/-- **table_edit_cex.**  The table is load-bearing: for class bodies that differ from the current
+one in a single fed piece the table-driven digest differs from `digest` (so
+`digest_eq_table_current` cannot survive such an edit of the source). -/
+theorem table_edit_cex :
+    (c17DigestT c04Classes c04WalkTable noNameTable (.var "x")).toOption = some [] ∧
+    (c17DigestT c04Classes c04WalkTable reprNameTable (.var "x")).toOption = some ["'x'"] ∧
+    (c17DigestT c04Classes c04WalkTable noOperatorTable (.cmp .lt (.var "x") (.var "y"))).toOption
+      = some ["Comparison", "x", "y"] ∧
+    (digest (.var "x")).toOption = some ["x"] ∧
+    (digest (.cmp .lt (.var "x") (.var "y"))).toOption = some ["Comparison", "x", "'<'", "y"] := by
+  decide
+
+/-! ### 8. What the feed determines: injectivity up to the known deviations
+
+The feed is a preorder listing without arity marks, the leaves carry no class name, several fields
+are never fed, and the hash object concatenates the pieces.  `digest_injective_partial` states
+exactly under which assumptions two trees with the same feed are the same tree; the `…_cex`
+theorems show that none of the assumptions can be dropped — each is a pair of DIFFERENT (`!=`)
+expressions that get the same persistent key from the real code (known findings
+`persistent-hash-collision:*`). -/
+
+/-- **digest_injective_partial.**  `ar` is a rank discipline (class name ↦ number of children).
+`a` and `b` are SEPARABLE for it (`c17Sep`): every variadic node (`Sum`, `Product`, …, `Call`,
+`CallWithKwargs` positional / keyword values, `Substitution` values, non-`None` `Slice` parts,
+tuples, lists) has the number of children `ar` prescribes for its class, every variable name reads
+as a name (not as a class name, a number, `True`/`False`, `inf`/`nan`) and every float `repr` as a
+float.  If `PersistentHashWalkMapper` feeds the same sequence of byte strings for both, then `a`
+and `b` are the same tree up to the fields that are never fed (`c17Erase`: look-up names, CSE
+prefix and scope, substitution and derivative variable names, keyword names, wildcard names,
+`None` slice parts, the value behind a float `repr`): same classes, same operators, same variable
+names, same comparison operators, same constant types and reprs, same keyword-value order.
+
+    Full-strength target, NOT true of the code:
+      theorem digest_injective (a b) : digest a = digest b → a = b
+    see `digest_arity_collision_cex`, `digest_leaf_token_collision_cex`,
+    `digest_unfed_field_collision_cex`, `digest_concat_collision_cex`. -/
+theorem digest_injective_partial (ar : String → Nat) (a b : Expr) (l : List String)
+    (sa : c17Sep ar a = true) (sb : c17Sep ar b = true) (da : digest a = .ok l)
+    (db : digest b = .ok l) : c17Erase a = c17Erase b :=
+  c17_digest_inj ar a b l sa sb da db
+
+/-- the decidable form: `c17CommonSep a b` computes a rank discipline from the two trees -/
+theorem digest_injective_common_partial (a b : Expr) (l : List String)
+    (hs : c17CommonSep a b = true) (da : digest a = .ok l) (db : digest b = .ok l) :
+    c17Erase a = c17Erase b := by
+  simp only [c17CommonSep, Bool.and_eq_true] at hs
+  exact c17_digest_inj _ a b l hs.1 hs.2 da db
+
+/-- non-vacuity: binary sums / products over names, ints, floats, comparisons, calls of rank 2 -/
+example :
+    let a := Expr.cmp .le (.nary .sum [.var "x", .const (.flt "0.5" 1 2)])
+      (.call (.var "f") [.const (.int (-3)), .lookup (.var "s") "fld"])
+    c17CommonSep a a = true ∧
+      (digest a).toOption = some ["Comparison", "Sum", "x", "0.5", "'<='", "Call", "f", "-3",
+        "Lookup", "s"] := by decide
+
+/-- **digest_erase_invariant.**  Conversely — unconditionally — the feed does not see what
+`c17Erase` removes: trees with the same erasure have the same digest. -/
+theorem digest_erase_invariant (a b : Expr) (h : c17Erase a = c17Erase b) : digest a = digest b :=
+  digest_of_c17Erase_eq h
+
+/-- **digest_separates_iff_partial.**  On separable trees the digest separates exactly what
+`c17Erase` keeps. -/
+theorem digest_separates_iff_partial (ar : String → Nat) (a b : Expr) (l : List String)
+    (sa : c17Sep ar a = true) (sb : c17Sep ar b = true) (da : digest a = .ok l) :
+    digest b = .ok l ↔ c17Erase a = c17Erase b :=
+  ⟨fun db => c17_digest_inj ar a b l sa sb da db,
+   fun h => by rw [← digest_of_c17Erase_eq h]; exact da⟩
+
+open PV.Generated in
+/-- `digest_injective_partial` about the table-driven digest of the current source -/
+theorem digest_injective_table_partial (ar : String → Nat) (a b : Expr) (l : List String)
+    (sa : c17Sep ar a = true) (sb : c17Sep ar b = true)
+    (da : c17DigestT c04Classes c04WalkTable c17HashTable a = .ok l)
+    (db : c17DigestT c04Classes c04WalkTable c17HashTable b = .ok l) :
+    c17Erase a = c17Erase b := by
+  rw [← digest_eq_table_current] at da db
+  exact c17_digest_inj ar a b l sa sb da db
+
+/-- structurally equal trees (`sameShape`, `==`) are the same tree after erasure, on the separable
+class: what `digest_structural_partial` identifies is within what `c17Erase` identifies -/
+theorem structural_erase_partial (ar : String → Nat) (a b : Expr) (l : List String)
+    (ha : a.wf = true) (hb : b.wf = true) (heq : a.pyEq b = true) (hs : sameShape a b = true)
+    (sa : c17Sep ar a = true) (sb : c17Sep ar b = true) (da : digest a = .ok l) :
+    c17Erase a = c17Erase b :=
+  c17_digest_inj ar a b l sa sb da (by rw [← digest_structural_partial a b ha hb heq hs]; exact da)
+
+/-- **digest_flat_injective_partial.**  What the hash object sees is the CONCATENATION of the
+pieces.  If every piece went through a self-delimiting encoding `enc` (`C17PrefixFree`: an encoded
+piece followed by anything decodes in one way), equal byte streams would mean equal trees on the
+separable class. -/
+theorem digest_flat_injective_partial (enc : String → List Char) (hp : C17PrefixFree enc)
+    (ar : String → Nat) (a b : Expr) (la lb : List String)
+    (sa : c17Sep ar a = true) (sb : c17Sep ar b = true) (da : digest a = .ok la)
+    (db : digest b = .ok lb) (h : c17Flat enc la = c17Flat enc lb) :
+    c17Erase a = c17Erase b := by
+  have := c17_flat_inj hp la lb h
+  subst this
+  exact c17_digest_inj ar a b la sa sb da db
+
+/-- a self-delimiting encoding: every character behind a `1`, then a `0` -/
+def markEnc (s : String) : List Char := s.toList.flatMap (fun c => ['1', c]) ++ ['0']
+
+theorem markEnc_aux : ∀ (x y u v : List Char),
+    x.flatMap (fun c => ['1', c]) ++ '0' :: u = y.flatMap (fun c => ['1', c]) ++ '0' :: v →
+    x = y ∧ u = v
+  | [], [], u, v, h => by simpa using h
+  | [], d :: y, u, v, h => by simp at h
+  | c :: x, [], u, v, h => by simp at h
+  | c :: x, d :: y, u, v, h => by
+    simp only [List.flatMap_cons, List.cons_append, List.nil_append, List.cons.injEq,
+      true_and] at h
+    obtain ⟨rfl, h⟩ := h
+    obtain ⟨rfl, rfl⟩ := markEnc_aux x y u v h
+    exact ⟨rfl, rfl⟩
+
+/-- the assumption of `digest_flat_injective_partial` is satisfiable -/
+theorem markEnc_prefixFree : C17PrefixFree markEnc := by
+  intro s t u v h
+  simp only [markEnc, List.append_assoc, List.cons_append, List.nil_append] at h
+  obtain ⟨h1, h2⟩ := markEnc_aux _ _ _ _ h
+  exact ⟨String.ext h1, h2⟩
+
+/-- **digest_concat_collision_cex** (known finding `persistent-hash-collision:concatenation`).
+The real pieces are fed as they are (`enc = String.toList`, not self-delimiting):
+`Power(Variable("a"), Variable("bc"))` and `Power(Variable("ab"), Variable("c"))` — and
+`Sum((1, 23))` and `Sum((12, 3))` — are separable under one rank discipline, are different trees
+even after erasure, have different chunk sequences, and the hash object sees the same bytes. -/
+theorem digest_concat_collision_cex :
+    (let a := Expr.bin .pow (.var "a") (.var "bc")
+     let b := Expr.bin .pow (.var "ab") (.var "c")
+     c17CommonSep a b = true ∧ c17Erase a ≠ c17Erase b ∧
+       (digest a).toOption = some ["Power", "a", "bc"] ∧
+       (digest b).toOption = some ["Power", "ab", "c"] ∧
+       c17Flat String.toList ["Power", "a", "bc"] = c17Flat String.toList ["Power", "ab", "c"]) ∧
+    (let a := Expr.nary .sum [.const (.int 1), .const (.int 23)]
+     let b := Expr.nary .sum [.const (.int 12), .const (.int 3)]
+     c17CommonSep a b = true ∧ c17Erase a ≠ c17Erase b ∧
+       (digest a).toOption = some ["Sum", "1", "23"] ∧
+       (digest b).toOption = some ["Sum", "12", "3"] ∧
+       c17Flat String.toList ["Sum", "1", "23"] = c17Flat String.toList ["Sum", "12", "3"]) := by
+  decide
+
+/-- **digest_arity_collision_cex** (known finding `persistent-hash-collision:arity`).
+`f(a + b, c)` and `f(a + b + c)`: all names read as names, the chunk sequences are EQUAL, the
+trees differ — and no rank discipline fits both (`Call` with two arguments and with one). -/
+theorem digest_arity_collision_cex :
+    let a := Expr.call (.var "f") [.nary .sum [.var "a", .var "b"], .var "c"]
+    let b := Expr.call (.var "f") [.nary .sum [.var "a", .var "b", .var "c"]]
+    (digest a).toOption = some ["Call", "f", "Sum", "a", "b", "c"] ∧
+      (digest b).toOption = some ["Call", "f", "Sum", "a", "b", "c"] ∧
+      c17Erase a ≠ c17Erase b ∧ a.pyEq b = false ∧
+      ∀ ar, ¬ (c17Sep ar a = true ∧ c17Sep ar b = true) := by
+  refine ⟨by decide, by decide, by decide, by decide, ?_⟩
+  rintro ar ⟨h1, h2⟩
+  simp only [c17Sep, c17SepL, Bool.and_eq_true, beq_iff_eq, List.length_cons, List.length_nil]
+    at h1 h2
+  omega
+
+/-- **digest_leaf_token_collision_cex** (known finding `persistent-hash-collision:leaf-token`).
+Leaves carry no class name: `Sum((Variable("1"), x))` and `Sum((1, x))`, `Variable("NaN")` and
+`NaN()`, `Variable("Sum")` and `Sum(())` have equal chunk sequences and fit one rank discipline;
+the variable names do not read as names. -/
+theorem digest_leaf_token_collision_cex :
+    (let a := Expr.nary .sum [.var "1", .var "x"]
+     let b := Expr.nary .sum [.const (.int 1), .var "x"]
+     (digest a).toOption = (digest b).toOption ∧ (digest a).toOption = some ["Sum", "1", "x"] ∧
+       c17Erase a ≠ c17Erase b ∧ a.pyEq b = false ∧ c17TokClass "1" ≠ (0, 0)) ∧
+    ((digest (.var "NaN")).toOption = (digest .nan).toOption ∧ c17TokClass "NaN" ≠ (0, 0)) ∧
+    ((digest (.var "Sum")).toOption = (digest (.nary .sum [])).toOption ∧
+       c17TokClass "Sum" ≠ (0, 0)) := by
+  decide
+
+/-- **digest_unfed_field_collision_cex** (known finding `persistent-hash-collision:unfed-field`).
+Fields that are never fed: `x.a` and `x.b`, `Derivative(x, ("a",))` and `Derivative(x, ("b",))`,
+`f(k=x)` and `f(j=x)`, `Slice((x, None))` and `Slice((None, x))` are different (`!=`) expressions
+with the same erasure, hence the same digest. -/
+theorem digest_unfed_field_collision_cex :
+    (let a := Expr.lookup (.var "x") "a"
+     let b := Expr.lookup (.var "x") "b"
+     a.pyEq b = false ∧ c17Erase a = c17Erase b ∧ (digest a).toOption = (digest b).toOption) ∧
+    (let a := Expr.deriv (.var "x") ["a"]
+     let b := Expr.deriv (.var "x") ["b"]
+     a.pyEq b = false ∧ c17Erase a = c17Erase b) ∧
+    (let a := Expr.callKw (.var "f") [] ["k"] [.var "x"]
+     let b := Expr.callKw (.var "f") [] ["j"] [.var "x"]
+     a.pyEq b = false ∧ c17Erase a = c17Erase b) ∧
+    (let a := Expr.slice [.var "x", .const .none]
+     let b := Expr.slice [.const .none, .var "x"]
+     a.pyEq b = false ∧ c17Erase a = c17Erase b) := by
+  decide
 
 end PV.C17
